@@ -1054,6 +1054,9 @@ fn run_file(ls: &mut Linters, it: &Item, out: &mut Buf) {
     let why = if touching.is_empty() { String::new() } else { format!("; applied fixes editing templated code: {:?}", touching) };
 
     // ---- direct observation of the property
+    // outcome of the templated observation for the `tok` group: 0 = placeholders kept and re-render == tree raw,
+    // 1/2/3 = failed in the recorded class fused / empty value / out of order, 4 = failed otherwise, 5 = not observed
+    let mut obs_code = 5usize;
     if !templated {
         let ok = run.fixed == tree_raw;
         let key = format!("c04-untemplated-{:016x}", fnv(&format!("{}|{}|{}", it.dialect, it.rules, it.sql)));
@@ -1077,6 +1080,17 @@ fn run_file(ls: &mut Linters, it: &Item, out: &mut Buf) {
                     None => format!("c04-templated-{:016x}", fnv(&format!("{}|{}|{}|{}", it.dialect, it.rules, it.sql, cfg_text("", "", it.templ.as_ref())))),
                 };
                 let ok1 = ph_fixed == ph_src;
+                let re0 = r.templated_file.templated_str.clone().unwrap_or_default();
+                obs_code = if ok1 && re0 == tree_raw {
+                    0
+                } else {
+                    match key.as_str() {
+                        "c04-placeholder-fused-with-neighbour" => 1,
+                        "c04-placeholder-with-empty-value" => 2,
+                        "c04-templated-patches-out-of-order" => 3,
+                        _ => 4,
+                    }
+                };
                 out.direct("templated-placeholders", ok1, &key, &format!("placeholders changed: source {:?} fixed {:?}; fixed text {:?}{}", ph_src, ph_fixed, trunc(&run.fixed, 300), why), input.clone());
                 let re = r.templated_file.templated_str.clone().unwrap_or_default();
                 let ok2 = re == tree_raw;
@@ -1153,6 +1167,28 @@ fn run_file(ls: &mut Linters, it: &Item, out: &mut Buf) {
     if run.patches.is_empty() && fnv(&it.sql) % 4 != 0 {
         out.count("tree_case_sampled_out (no patch: 1 in 4 kept)", 1);
         return;
+    }
+    // ---- group tok: the premise of C04_templated (tiling + tree_ok) evaluated in Coq on every templated final tree with a patch and 1 in 4 of those without
+    if templated && src.len() <= TREE_CASE_MAX {
+        let raws: Vec<(usize, bool)> = tf.verif_raw_sliced_idx().into_iter().map(|(i, t, _)| (i, t == "literal")).collect();
+        let sliced = g_list(tf.sliced_file.iter().map(|t| {
+            let ty = match t.slice_type.as_str() {
+                "literal" => 0,
+                "templated" => 1,
+                _ => 2,
+            };
+            g_tuple(&[g_n(ty), g_n(t.source_slice.start), g_n(t.source_slice.end), g_n(t.templated_slice.start), g_n(t.templated_slice.end)])
+        }));
+        let args = g_tuple(&[
+            g_text(&src),
+            if tpl == src { "None".to_string() } else { g_opt(Some(g_text(&tpl))) },
+            sliced,
+            g_list(raws.iter().map(|(i, l)| g_tuple(&[g_n(*i), g_bool(*l)]))),
+            tree_term.clone(),
+        ]);
+        let sample = json!({"input":input,"n_nodes":nodes,"observed":obs_code,"patches":run.patches.iter().map(|(s,e,r)| json!([s,e,trunc(r,80)])).collect::<Vec<_>>(),"fixed":trunc(&run.fixed,200)});
+        // not a correspondence case: bin/propcfg/c04.py (post) evaluates Corr.C04.tok_stat on it and counts
+        out.lines.push(json!({"t":"tok","cls":it.cls,"nontrivial":!run.patches.is_empty(),"args":args,"obs":obs_code,"sample":sample}));
     }
     if src.len() > TREE_CASE_MAX {
         out.count("tree_case_skipped_large", 1);
